@@ -634,6 +634,54 @@ func c29(c *core.Ctx) {
 		rP.Check(n == 0, k+":production-callers", f.Decl.Pos(), "no non-test caller", "production code builds a nameless V2 chronicler: files it creates carry no swamp name")
 	}
 
+	rNR := c.Rule("C29.norecreate", "a storage file that exists is never created anew: every call to a function that calls os.Create on the writer's path is made on the branch where os.IsNotExist reported the file missing (an existing file keeps the name stored in it; the writer that opens it for appending carries no name)", 2)
+	{
+		var creators []*core.Func
+		for _, f := range p.FuncsIn(pkgV2) {
+			if f.Decl.Body == nil {
+				continue
+			}
+			isCreator := false
+			core.Calls(f.Decl.Body, false, func(call *ast.CallExpr) {
+				if core.IsCallTo(f.Info(), call, "os.Create") {
+					isCreator = true
+				}
+			})
+			if isCreator && f.Decl.Recv != nil {
+				creators = append(creators, f)
+				c.Touch(f)
+			}
+		}
+		n := 0
+		for _, cr := range creators {
+			for _, s := range c.CG().In[cr] {
+				if s.Caller == nil || s.Caller.Decl.Body == nil {
+					continue
+				}
+				n++
+				ci := s.Caller.Info()
+				body := core.BodyContaining(s.Caller.Decl, s.Call)
+				cfl := core.NewFlow(p, ci, body)
+				l, ok := cfl.Locate(s.Call)
+				missing := false
+				if ok {
+					for _, ft := range cfl.FactsAt(l) {
+						if gc, isCall := core.Unparen(ft.Expr).(*ast.CallExpr); isCall && ft.Truth && core.IsCallTo(ci, gc, "os.IsNotExist") {
+							missing = true
+						}
+						if gc, isCall := core.Unparen(ft.Expr).(*ast.CallExpr); isCall && ft.Truth && core.IsCallTo(ci, gc, "errors.Is") && len(gc.Args) == 2 && strings.Contains(core.ExprStr(gc.Args[1]), "ErrNotExist") {
+							missing = true
+						}
+					}
+				}
+				rNR.Check(missing, s.Caller.Key+"->"+cr.Obj.Name(), s.Call.Pos(), "only when the file does not exist", "the file is created anew although it may exist: os.Create empties it and the name area is rewritten with this writer's name - empty for a writer that was opened to append - so the stored swamp name is lost (and with it every block already in the file)")
+			}
+		}
+		if n == 0 {
+			rNR.Bad(pkgV2+":file-creators", token.NoPos, "no caller of a file-creating writer method found")
+		}
+	}
+
 	rK := c.Rule("C29.const", "the metadata entry key constants of the reader and the migrator have the same value, and every comparison of an entry key against the metadata key uses one of them", 2)
 	a := p.Const(pkgV2, "MetadataEntryKey")
 	b := p.Const(pkgV2+"/migrator", "MetadataEntryKey")
